@@ -113,9 +113,42 @@ class ReachingDefs:
         env = self.IN.get(node.id) or {}
         return [self.defs[d] for d in sorted(env.get(var, ()))]
 
-    def values(self, node, var):
-        """Value expressions that may define var at node (None element = unknown/opaque def)."""
-        return [d[1] for d in self.reaching(node, var)]
+    def values(self, node, var, deep=False, _depth=0, _seen=None):
+        """Value expressions that may define var at node (None element = unknown/opaque def).  Plain copies are looked
+        through: a definition `var = other` stands for the definitions of `other` reaching that statement, and the i-th target
+        of `a, b = t` for the i-th element of every tuple that defines t (helper calls expanded in place leave such copies)."""
+        if not deep:
+            return [d[1] for d in self.reaching(node, var)]
+        out = []
+        seen = _seen if _seen is not None else set()
+        for d in self.reaching(node, var):
+            v, dn = d[1], d[2]
+            key = (id(dn), d[0])
+            if _depth < 6 and dn is not None and key not in seen:
+                if isinstance(v, ast.Name):
+                    seen.add(key)
+                    sub = self.values(dn, v.id, True, _depth + 1, seen)
+                    if sub:
+                        out.extend(sub)
+                        continue
+                if isinstance(v, tuple) and len(v) == 3 and v[0] == 'unpack' and isinstance(v[1], ast.Name):
+                    seen.add(key)
+                    sub = self.values(dn, v[1].id, True, _depth + 1, seen)
+                    if sub:
+                        for x in sub:
+                            if isinstance(x, (ast.Tuple, ast.List)) and v[2] < len(x.elts):
+                                e = x.elts[v[2]]
+                                if isinstance(e, ast.Name):
+                                    xn = node_of_expr(self.g, x)
+                                    deeper = self.values(xn, e.id, True, _depth + 1, seen) if xn is not None else []
+                                    out.extend(deeper or [e])
+                                else:
+                                    out.append(e)
+                            else:
+                                out.append(('unpack', x, v[2]))       # component of what the defining expression returns
+                        continue
+            out.append(v)
+        return out
 
 
 def node_of_expr(g, expr):
